@@ -186,13 +186,15 @@ def r_history(ctx, model):
     ref = reference()
     ev = make_ev(ctx, model)
     first = {}
+    # the second calculator is a NEW object: it has the attributes a calculator is given, not those the analysed code attached to the first one while it ran
+    given = dict(ev.seeds[(LONG, "calculator")].attrs)
     for cref in (LONG, OFFD):
         for attr in ("zero_point_contribution", "thermal_contribution", "isothermal_to_adiabatic"):
             first[(cref, attr)] = norm(ev.get_attr(Obj(cref), attr))
     FB, GB, VB = sp.symbols("FREQ GAMMA VDR", real=True)       # same names, new session objects below
     F2, G2, V2 = sp.Symbol("FREQ_B", real=True), sp.Symbol("GAMMA_B", real=True), sp.Symbol("VDR_B", real=True)
     calc1 = ev.seeds[(LONG, "calculator")]
-    calc2 = Obj(CALC, dict(calc1.attrs))
+    calc2 = Obj(CALC, dict(given))
     calc2.attrs.pop("_prop_cache", None)
     calc2.attrs["freq_array"] = F2 * U.UNIT_TABLE["cm"]
     from ..sym import Tup
